@@ -624,7 +624,7 @@ Qed.
 
 Lemma HI_step : forall x tr xl x', HI x tr -> xstep x xl = Some x' -> HI x' (tr ++ xevents x xl).
 Proof.
-  intros x tr xl x' H Hst. pose proof U_ne0 as UN. destruct xl as [lb| | |].
+  intros x tr xl x' H Hst. pose proof U_ne0 as UN. destruct xl as [lb| | | |].
   - (* a transition of the control LTS *)
     destruct (xstep_XL _ _ _ Hst) as (s' & Hl & -> & Hgo & Hidle).
     change (xevents x (XL lb)) with (label_events N parent true (base x) lb).
@@ -709,6 +709,19 @@ Proof.
   - (* setOptions: apply the options taken *)
     unfold Access.xstep in Hst. destruct (xeo x) eqn:Eo; try discriminate. injection Hst as <-.
     apply (HI_apply x tr H Eo).
+  - (* waitOptionsSet returns *)
+    unfold Access.xstep in Hst. destruct (xfin x) eqn:Ef; try discriminate. injection Hst as <-.
+    apply (HI_quiet x tr); cbn [base xpend xfin xeo].
+    + exact H.
+    + intros k e A. simpl in A. enum_nth A; unfold isU, isE; simpl; intuition discriminate.
+    + apply (h_L _ _ H).
+    + intros E. split; [exact E|]. intros k e A. simpl in A. enum_nth A; reflexivity.
+    + intros E; left; auto.
+    + intros E; left; auto.
+    + apply (h_taken _ _ H).
+    + apply (h_pend _ _ H).
+    + intros E; left; auto.
+    + auto.
 Qed.
 
 Lemma xreach_HI : forall x tr, xreach x tr -> HI x tr.
@@ -744,7 +757,7 @@ Definition params_tids (tr : list tev) : Prop :=
 
 Lemma xevents_params : forall x xl x', xstep x xl = Some x' -> params_tids (xevents x xl).
 Proof.
-  intros x xl x' Hst p t w k A. destruct xl as [lb| | |].
+  intros x xl x' Hst p t w k A. destruct xl as [lb| | | |].
   - destruct (xstep_XL _ _ _ Hst) as (s' & Hl & _).
     change (xevents x (XL lb)) with (label_events N parent true (base x) lb) in A.
     destruct lb as [t0 a|e].
@@ -768,6 +781,7 @@ Proof.
       * enum_nth A.
   - simpl in A. unfold notify_events in A. enum_nth A.
   - simpl in A. destruct (xpend x); enum_nth A.
+  - simpl in A. enum_nth A.
   - simpl in A. enum_nth A.
 Qed.
 
@@ -814,5 +828,24 @@ Proof.
     all: destruct l; simpl in Hh; try discriminate; simpl.
     all: try (split; [reflexivity|]; auto; fail).
     all: unfold at_ in *; try (destruct (PT i _ _ _ Ha); congruence); try (destruct (PT j _ _ _ Hb); congruence).
+Qed.
+
+(** C10: option changes end with the engine ready for the next command.  Whenever the UCI thread
+    gets past waitOptionsSet — [XWaitOpt] (isready answer, stop) or the set-up of a search
+    [go] / [go ponder] — no option is pending and none is being applied, on every schedule *)
+Definition options_settled (x : xstate) : Prop := xpend x = false /\ xeo x <> EOTaken.
+
+Theorem options_applied_before_ready : forall x tr xl x',
+  xreach x tr -> xstep x xl = Some x' ->
+  (xl = XWaitOpt \/ exists p, xl = XL (LE (EGo p))) -> options_settled x.
+Proof.
+  intros x tr xl x' R Hst Hxl. pose proof (xreach_HI _ _ R) as H.
+  assert (Ef : xfin x = true).
+  { destruct Hxl as [->|(p & ->)].
+    - unfold Access.xstep in Hst. destruct (xfin x); [reflexivity|discriminate].
+    - destruct (xstep_XL _ _ _ Hst) as (s' & _ & _ & Hgo & _). apply (Hgo p eq_refl). }
+  split.
+  - destruct (xpend x) eqn:E; auto. pose proof (h_pend _ _ H E). congruence.
+  - intros E. pose proof (h_taken _ _ H E). congruence.
 Qed.
 End H.
